@@ -238,6 +238,8 @@ type expect struct {
 	n    *big.Int
 	q    *big.Rat // exact quotient for approximate results
 	b    bool
+	// within1: the result is the quotient rounded to a whole nanosecond (integer arithmetic): |n - q| < 1 exactly
+	within1 bool
 }
 
 func bigOf(v Val) *big.Int {
@@ -336,7 +338,8 @@ func table(op string, x, y Val) expect {
 			if !ratFits(q) {
 				return expect{mode: "excluded", why: "overflow"}
 			}
-			e := expect{mode: "value", kind: "duration", q: q}
+			// integer arithmetic: the quotient rounded to a whole nanosecond in either direction, no relative slack
+			e := expect{mode: "value", kind: "duration", q: q, within1: true}
 			if !fits(i) {
 				e.mode = "either"
 			}
@@ -424,6 +427,9 @@ func (e expect) matches(got starlark.Value) error {
 		tol := new(big.Rat).Abs(e.q)
 		tol.Mul(tol, new(big.Rat).SetFrac(big.NewInt(1), new(big.Int).Lsh(big.NewInt(1), 50)))
 		tol.Add(tol, big.NewRat(1, 1))
+		if e.within1 {
+			tol = big.NewRat(1, 1)
+		}
 		if diff.Cmp(tol) >= 0 {
 			return fmt.Errorf("got %s, want the quotient %s ns to within 1 ns", describe(got), e.q.FloatString(3))
 		}
